@@ -150,6 +150,18 @@ def files_oracle(fields, impl, model):
 
 # pid -> list of streams; each stream: harness name, model runner, oracle runner, counts
 
+def total_oracle(fields, impl):
+    """C18: the call returned normally (no panic, no fatal error, no hang) and what it printed is well formed"""
+    if not impl:
+        return [("no-result", b"")]
+    st = impl[0]
+    if st in (b"panic", b"died", b"hang", b"harness-error"):
+        return [(st.decode(), impl[1][:120] if len(impl) > 1 else b"")]
+    if len(impl) > 2 and impl[2].startswith(b"malformed"):
+        return [("malformed-output", impl[2][:120])]
+    return []
+
+
 def slot_words(fields):
     """typed words and current word of a `slot` case (after the command-tree tokens)"""
     def skip(t):
@@ -240,6 +252,19 @@ def pred_slot_chain_before_subcommand(f):
 
 
 PROPS = {
+    "C18": dict(streams=[dict(harness="total", model=None, oracle_py=total_oracle, quick=6000, thorough=150000,
+                              nontrivial=lambda f, impl: len(impl) > 3 and impl[0] == b"ok" and impl[3] not in (b"0", b"1"))],
+                tie="Model/Total.v guards <-> the slice/index expressions and branch conditions regenerated from the source by tools/goaudit (Props/C18.v C18_sites_audited); the process-level behaviour is observed, not modelled",
+                rule="one process per case (a panic in any goroutine, a fatal error and a hang are seen from outside; 20 s limit), started below a process NAMED bash / nu / cmd / zsh / "
+                     "fish / elvish / pwsh / xonsh / sh so that ps.DetermineShell takes the shell specific patching paths. Program: a tree with string / bool / slice / optional-argument "
+                     "flags, sub-commands completing styled values, MultiParts, ActionMultiParts, files, a failing and a missing external command, Split, a callback that reports an "
+                     "error or applies Prefix(Kelvin sign) / Suffix / Filter, Batch with a message, a non-interspersed sub-command with Usage. Arguments: no argument, one (any shell "
+                     "name, unknown, empty, invalid UTF-8), or shell + program name + 0-5 words from the tree's vocabulary and from {empty, -, --, lone and unbalanced quotes, "
+                     "backquotes, invalid UTF-8, 3-12 kB words, non-ASCII, letters whose lower case has another byte length, tab/newline, redirection and pipe operators, ~name "
+                     "paths, backslash}; environment: COMP_LINE (words joined by blanks / ; / | / > / ;# / tab, optional trailing operator, quote or comment) with COMP_POINT absent, "
+                     "empty, negative, non-numeric, huge, beyond, inside or at the end of the line; COMP_TYPE, COMP_WORDBREAKS, CARAPACE_COMPLINE, CARAPACE_MATCH, CARAPACE_ZSH_HASH_DIRS, "
+                     "NO_COLOR, CARAPACE_HIDDEN / LENIENT / UNFILTERED / NOSPACE / TOOLTIP. Verdict: no panic / fatal error / hang; output of the JSON shells decodes, no NUL in the others; "
+                     "non-trivial = a completion was produced"),
     "C20": dict(streams=[dict(harness="bridge", model=None, oracle="bridge_oracle", quick=3000, thorough=40000,
                               nontrivial=lambda f, impl: len(impl) > 3)],
                 tie="Model/Bridge.v cobra_values / cobra_directive / directive_to_action evaluated (extracted) on what the real program serves <-> real `__complete` and real `_carapace export` of the same registration and line",
